@@ -237,8 +237,8 @@ Lemma maybe_send_fin_nrR : forall s : vsock, stR nrR s (maybe_send_fin s).
 Proof.
   intro s. pose proof (maybe_send_fin_fpr s) as F.
   destruct (maybe_send_fin s) as [s' b|s' e|]; cbn [sfp stR] in *; auto; apply nrR_same.
-  - destruct F as (_ & _ & _ & _ & _ & _ & _ & _ & _ & _ & F11). exact F11.
-  - destruct F as ((_ & _ & _ & _ & _ & _ & _ & _ & _ & _ & F11) & _). exact F11.
+  - destruct F as (_ & _ & _ & _ & _ & _ & _ & _ & _ & _ & F11 & _). exact F11.
+  - destruct F as ((_ & _ & _ & _ & _ & _ & _ & _ & _ & _ & F11 & _) & _). exact F11.
 Qed.
 
 Lemma send_tx_queue_nrR : forall s : vsock, stR nrR s (send_tx_queue cci s).
@@ -452,8 +452,8 @@ Lemma maybe_send_fin_rpR : forall s : vsock, stR rpR s (maybe_send_fin s).
 Proof.
   intro s. pose proof (maybe_send_fin_fpr s) as F.
   destruct (maybe_send_fin s) as [s' b|s' e|]; cbn [sfp stR] in *; auto; apply rpR_same.
-  - destruct F as (_ & _ & _ & _ & _ & _ & _ & _ & _ & _ & F11). exact F11.
-  - destruct F as ((_ & _ & _ & _ & _ & _ & _ & _ & _ & _ & F11) & _). exact F11.
+  - destruct F as (_ & _ & _ & _ & _ & _ & _ & _ & _ & _ & F11 & _). exact F11.
+  - destruct F as ((_ & _ & _ & _ & _ & _ & _ & _ & _ & _ & F11 & _) & _). exact F11.
 Qed.
 
 Lemma set_recovering_rpR : forall (s : vsock) rc rc1,
@@ -642,7 +642,7 @@ Qed.
 Lemma FC_fpr : forall a a' : vsock,
   fpr a a' -> (v_transport_pending a = true -> v_transport_pending a' = true) -> FC a -> FC a'.
 Proof.
-  intros a a' (E1 & _ & _ & _ & _ & _ & _ & (l & E8 & _) & _ & E11 & E12) Htp K.
+  intros a a' (E1 & _ & _ & _ & _ & _ & _ & (l & E8 & _) & _ & E11 & E12 & _) Htp K.
   unfold FC. rewrite E1, E11, E12. intros T C rc' i Hp Hf Hd Hl Hs.
   assert (Ta : v_transport_pending a = false) by (destruct (v_transport_pending a); [rewrite Htp in T; auto | reflexivity]).
   destruct (K Ta C rc' i Hp Hf Hd Hl Hs) as (p & P1 & P2 & P3).
@@ -657,7 +657,9 @@ Lemma pim_FA : forall s : vsock,
 Proof.
   intros s Hi. apply pim_rule; try exact Hi.
   - intros a b F [K1 K2]. split; [eapply IA_fpr; eauto|].
-    destruct F as (E1 & _ & _ & _ & _ & _ & _ & _ & _ & _ & E12). eapply HRI_eq; eauto.
+    destruct F as (E1 & _ & _ & _ & _ & _ & _ & _ & _ & _ & E12 & _). eapply HRI_eq; eauto.
+  - intros a l [K1 K2]. split; [eapply IA_skr; [|exact K1]; skr_leaf|].
+    eapply HRI_eq; [| |exact K2]; reflexivity.
   - intros a c tr ti0 [K1 K2]. split; [eapply IA_skr; [|exact K1]; skr_leaf|].
     eapply HRI_eq; [| |exact K2]; reflexivity.
   - intros s1 s2 h res [K1 K2] E. split; [eapply IA_skr; [eapply pim_ack_skr; exact E | exact K1]|].
@@ -682,7 +684,7 @@ Proof.
              stH FC (fun _ _ => True) FA m).
   { intros X a m (T & K & Hh) F Tt. destruct m as [a' x|a' e|]; cbn [sfp stR stH] in *; auto.
     split; [intros Tp Tf; congruence|]. intros _. split; [exact (Tt T)|]. split; [eapply IA_fpr; eauto|].
-    destruct F as (E1 & _ & _ & _ & _ & _ & _ & _ & _ & _ & E12). eapply HRI_eq; eauto. }
+    destruct F as (E1 & _ & _ & _ & _ & _ & _ & _ & _ & _ & E12 & _). eapply HRI_eq; eauto. }
   assert (Hcc : forall X (a : vsock) (m : step X), FC a -> sfp a m -> stR qb a m ->
              stH FC (fun _ _ => True) FC m).
   { intros X a m K F Q. destruct m as [a' x|a' e|]; cbn [sfp stR stH] in *; auto.
